@@ -31,10 +31,12 @@ import (
 	"time"
 
 	ch "github.com/WuKongIM/WuKongIM/pkg/channel"
+	"github.com/WuKongIM/WuKongIM/pkg/channel/replication"
 	"github.com/WuKongIM/WuKongIM/pkg/channel/service"
 	"github.com/WuKongIM/WuKongIM/pkg/channel/store"
 	channeltransport "github.com/WuKongIM/WuKongIM/pkg/channel/transport"
 	"github.com/WuKongIM/WuKongIM/pkg/cluster/channels"
+	goruntimeregistry "github.com/WuKongIM/WuKongIM/pkg/goroutine"
 	"github.com/WuKongIM/WuKongIM/pkg/verifkit"
 )
 
@@ -53,13 +55,12 @@ type c10Live struct {
 	r     *verifkit.Run
 	rng   *rand.Rand
 	hub   *c10Hub
+	w     *c10LiveWorld
 	nodes map[ch.NodeID]ch.Cluster
 	facts map[ch.NodeID]*c10Factory
 	svc   *channels.Service
 	src   *c10MetaSource
 	meta  ch.Meta
-	stop  chan struct{}
-	wg    sync.WaitGroup
 
 	ctx    context.Context
 	cancel context.CancelFunc
@@ -121,11 +122,145 @@ func (l *c10Live) leaderLEO() uint64 {
 	return st.LEO
 }
 
-func c10NewLive(r *verifkit.Run, rng *rand.Rand, caseIdx int) (*c10Live, error) {
-	l := &c10Live{r: r, rng: rng, hub: c10NewHub(r), nodes: map[ch.NodeID]ch.Cluster{}, facts: map[ch.NodeID]*c10Factory{},
-		src: c10NewMetaSource(), stop: make(chan struct{}), msgs: map[uint64]c10Rec{}, nextID: uint64(caseIdx+1) * 1_000_000,
-		paused: map[ch.NodeID]bool{}, views: map[ch.NodeID]c10ViewMark{}}
+// c10LiveWorld is the 3-node runtime shared by consecutive cases (building the
+// worker pools of three runtimes costs about a second under -race); every case
+// uses a fresh channel and a fresh hub, and evicts its channel at the end.
+// c10Router joins the three durable-quorum-log runtimes: an exchange to a peer
+// is a direct call of that peer's real ExchangeServer.
+type c10Router struct {
+	mu      sync.RWMutex
+	servers map[ch.NodeID]*replication.ExchangeServer
+}
+
+type c10Link struct {
+	from   ch.NodeID
+	router *c10Router
+}
+
+func (l c10Link) Exchange(ctx context.Context, target ch.NodeID, batch replication.ExchangeBatch) (replication.ExchangeBatchResult, error) {
+	l.router.mu.RLock()
+	server := l.router.servers[target]
+	l.router.mu.RUnlock()
+	if server == nil {
+		return replication.ExchangeBatchResult{}, ch.ErrNotReady
+	}
+	return server.Handle(ctx, l.from, batch)
+}
+
+type c10LiveWorld struct {
+	// mode is "pull" (transitional PullHint/Pull replication, leader tracks
+	// follower match offsets) or "quorum" (production wiring: every node has a
+	// replication.Runtime, leader appends go through the durable quorum log,
+	// followers persist proposals through their exchange server).
+	mode  string
+	rts   map[ch.NodeID]*replication.Runtime
+	nodes map[ch.NodeID]ch.Cluster
+	facts map[ch.NodeID]*c10Factory
+	svcs  map[ch.NodeID]*channels.Service
+	src   *c10MetaSource
+	stop  chan struct{}
+	wg    sync.WaitGroup
+	used  int
+}
+
+func c10NewLiveWorld(mode string) (*c10LiveWorld, error) {
+	w := &c10LiveWorld{mode: mode, rts: map[ch.NodeID]*replication.Runtime{}, nodes: map[ch.NodeID]ch.Cluster{}, facts: map[ch.NodeID]*c10Factory{}, svcs: map[ch.NodeID]*channels.Service{},
+		src: c10NewMetaSource(), stop: make(chan struct{})}
+	network := channeltransport.NewLocalNetwork()
+	router := &c10Router{servers: map[ch.NodeID]*replication.ExchangeServer{}}
+	for _, node := range []ch.NodeID{1, 2, 3} {
+		f := c10NewFactory(node, store.NewMemoryFactory())
+		w.facts[node] = f
+		cfg := service.Config{LocalNode: node, Store: f, ReactorCount: 1, Transport: network.Client(), MetaResolver: w.src,
+			ReplicationIdlePollInterval: 2 * time.Millisecond, ReplicationMaxBackoff: 10 * time.Millisecond, PullHintRetryInterval: 10 * time.Millisecond,
+			FollowerRecoveryProbeInterval: 20 * time.Millisecond, FollowerRecoveryProbeJitter: 5 * time.Millisecond}
+		if mode == "quorum" {
+			adapter, err := replication.NewStoreAdapter(replication.StoreAdapterConfig{Factory: f, MaxBatchItems: replication.MaxExchangeBatchItems, MaxBatchBytes: replication.MaxExchangeBatchBytes})
+			if err != nil {
+				w.close()
+				return nil, err
+			}
+			rt, err := replication.NewRuntime(replication.RuntimeConfig{
+				LocalNode: node, Store: adapter, Link: c10Link{from: node, router: router}, Goroutines: goruntimeregistry.New(),
+				LocalWorkers: 4, PeerWorkers: 4, PeerTargetFlight: 2, RepairWorkers: 1,
+				ReplicaHedgeDelay: time.Millisecond, TrailingFlushInterval: 2 * time.Millisecond,
+				ExchangeTimeout: 2 * c10LiveOpTimeout, LocalTimeout: 2 * c10LiveOpTimeout, RecoveryTimeout: 2 * c10LiveOpTimeout, CloseTimeout: 30 * time.Second,
+				MaxChannels: 256, MaxVoters: 3,
+			})
+			if err != nil {
+				w.close()
+				return nil, err
+			}
+			w.rts[node] = rt
+			router.mu.Lock()
+			router.servers[node] = rt.ExchangeServer()
+			router.mu.Unlock()
+			cfg.QuorumLog = rt.Log()
+		}
+		cl, err := service.New(cfg)
+		if err != nil {
+			w.close()
+			return nil, err
+		}
+		w.nodes[node], w.facts[node] = cl, f
+		server, ok := cl.(channeltransport.Server)
+		if !ok {
+			w.close()
+			return nil, fmt.Errorf("service cluster is not a transport.Server")
+		}
+		network.Register(node, server)
+		svc, err := channels.NewService(channels.Config{Runtime: cl, LocalNode: node, MetaSource: w.src, Store: f})
+		if err != nil {
+			w.close()
+			return nil, err
+		}
+		w.svcs[node] = svc
+	}
+	for _, node := range []ch.NodeID{1, 2, 3} {
+		cl := w.nodes[node]
+		w.wg.Add(1)
+		go func() {
+			defer w.wg.Done()
+			t := time.NewTicker(2 * time.Millisecond)
+			defer t.Stop()
+			for {
+				select {
+				case <-w.stop:
+					return
+				case <-t.C:
+					_ = cl.Tick(context.Background())
+				}
+			}
+		}()
+	}
+	return w, nil
+}
+
+func (w *c10LiveWorld) close() {
+	for _, f := range w.facts {
+		f.setPaused(false)
+	}
+	select {
+	case <-w.stop:
+	default:
+		close(w.stop)
+	}
+	w.wg.Wait()
+	for _, n := range w.nodes {
+		_ = n.Close()
+	}
+	for _, rt := range w.rts {
+		ctx, cancel := context.WithTimeout(context.Background(), 60*time.Second)
+		_ = rt.Close(ctx)
+		cancel()
+	}
+}
+
+func c10NewLive(r *verifkit.Run, rng *rand.Rand, caseIdx int, w *c10LiveWorld) (*c10Live, error) {
+	l := &c10Live{r: r, rng: rng, hub: c10NewHub(r), w: w, nodes: w.nodes, facts: w.facts, src: w.src,
+		msgs: map[uint64]c10Rec{}, nextID: uint64(caseIdx+1) * 1_000_000, paused: map[ch.NodeID]bool{}, views: map[ch.NodeID]c10ViewMark{}}
 	l.ctx, l.cancel = context.WithCancel(context.Background())
+	l.hub.history = l.history
 	id := ch.ChannelID{ID: fmt.Sprintf("c10l-%d-%d", r.Seed, caseIdx), Type: 2}
 	leader := ch.NodeID(1 + rng.IntN(3))
 	isr := []ch.NodeID{1, 2, 3}
@@ -137,97 +272,75 @@ func c10NewLive(r *verifkit.Run, rng *rand.Rand, caseIdx int) (*c10Live, error) 
 		minISR = 3
 	}
 	if rng.IntN(6) == 0 { // a two-member ISR, the third node is a plain replica
-		isr = nil
-		for _, n := range []ch.NodeID{1, 2, 3} {
-			if n == leader || len(isr) < 1 || (len(isr) < 2 && n == 3) {
-				isr = append(isr, n)
-			}
-		}
-		hasLeader := false
-		for _, n := range isr {
-			hasLeader = hasLeader || n == leader
-		}
-		if !hasLeader || len(isr) != 2 {
-			isr = []ch.NodeID{1, 2, 3}
-		} else if minISR > 2 {
+		other := ch.NodeID(1 + (int(leader)+rng.IntN(2))%3)
+		isr = []ch.NodeID{leader, other}
+		if minISR > 2 {
 			minISR = 2
 		}
 	}
-	l.meta = ch.Meta{Key: ch.ChannelKeyForID(id), ID: id, Epoch: 1, LeaderEpoch: 1, Leader: leader, Replicas: []ch.NodeID{1, 2, 3}, ISR: isr, MinISR: minISR, Status: ch.StatusActive}
+	if w.mode == "quorum" && minISR*2 <= len(isr) {
+		// the durable quorum log only installs majority write quorums; the
+		// MinISR<=1 read path (committed = LEO) is reached with a single voter.
+		isr = []ch.NodeID{leader}
+		minISR = 1
+	}
+	l.meta = ch.Meta{Key: ch.ChannelKeyForID(id), ID: id, Epoch: 1, LeaderEpoch: 1, RouteGeneration: 1, Leader: leader, Replicas: []ch.NodeID{1, 2, 3}, ISR: isr, MinISR: minISR, Status: ch.StatusActive}
 	l.hub.setTopology(id, leader, isr)
+	for _, node := range []ch.NodeID{1, 2, 3} {
+		l.hub.attach(w.facts[node])
+	}
 	l.src.set(l.meta)
-	network := channeltransport.NewLocalNetwork()
-	for _, node := range []ch.NodeID{1, 2, 3} {
-		f := l.hub.wrap(node, store.NewMemoryFactory())
-		cl, err := service.New(service.Config{LocalNode: node, Store: f, ReactorCount: 1, Transport: network.Client(), MetaResolver: l.src,
-			ReplicationIdlePollInterval: 2 * time.Millisecond, ReplicationMaxBackoff: 10 * time.Millisecond, PullHintRetryInterval: 10 * time.Millisecond,
-			FollowerRecoveryProbeInterval: 20 * time.Millisecond, FollowerRecoveryProbeJitter: 5 * time.Millisecond})
-		if err != nil {
-			l.close()
-			return nil, err
-		}
-		server, ok := cl.(channeltransport.Server)
-		if !ok {
-			l.close()
-			return nil, fmt.Errorf("service cluster is not a transport.Server")
-		}
-		network.Register(node, server)
-		l.nodes[node], l.facts[node] = cl, f
-	}
-	svc, err := channels.NewService(channels.Config{Runtime: l.nodes[leader], LocalNode: leader, MetaSource: l.src, Store: l.facts[leader]})
-	if err != nil {
-		l.close()
-		return nil, err
-	}
-	l.svc = svc
-	for _, node := range []ch.NodeID{1, 2, 3} {
-		cl := l.nodes[node]
-		l.wg.Add(1)
-		go func() {
-			defer l.wg.Done()
-			t := time.NewTicker(2 * time.Millisecond)
-			defer t.Stop()
-			for {
-				select {
-				case <-l.stop:
-					return
-				case <-t.C:
-					_ = cl.Tick(context.Background())
-				}
-			}
-		}()
-	}
+	l.svc = w.svcs[leader]
 	for _, node := range []ch.NodeID{1, 2, 3} {
 		if err := l.nodes[node].ApplyMeta(l.meta); err != nil {
 			l.close()
-			return nil, fmt.Errorf("ApplyMeta node %d: %w", node, err)
+			return nil, fmt.Errorf("ApplyMeta node %d (mode %s, meta %+v): %w", node, w.mode, l.meta, err)
 		}
 	}
+	w.used++
 	return l, nil
 }
 
+// close ends the case: releases held applies, cancels in-flight appends and
+// unloads the case's channel from the three runtimes.
 func (l *c10Live) close() {
 	for _, f := range l.facts {
 		f.setPaused(false)
 	}
-	if l.cancel != nil {
-		l.cancel()
-	}
-	select {
-	case <-l.stop:
-	default:
-		close(l.stop)
-	}
-	l.wg.Wait()
+	l.cancel()
 	for _, p := range l.pending {
 		select {
 		case <-p.done:
 		case <-time.After(c10LiveOpTimeout):
 		}
 	}
-	for _, n := range l.nodes {
-		_ = n.Close()
+	l.src.setMissing(l.meta.ID, true)
+	order := []ch.NodeID{l.meta.Leader}
+	for _, n := range []ch.NodeID{1, 2, 3} {
+		if n != l.meta.Leader {
+			order = append(order, n)
+		}
 	}
+	for _, n := range order {
+		ev, ok := l.nodes[n].(interface {
+			RuntimeEvict(context.Context, ch.RuntimeSelector) (ch.RuntimeEvictResult, error)
+		})
+		if !ok {
+			continue
+		}
+		ctx, cancel := context.WithTimeout(context.Background(), 20*time.Second)
+		res, err := ev.RuntimeEvict(ctx, ch.RuntimeSelector{ChannelIDs: []ch.ChannelID{l.meta.ID}})
+		cancel()
+		if err != nil || res.Evicted == 0 {
+			l.r.Count("live.evict_not_done", 1)
+		}
+	}
+}
+
+func (l *c10Live) timed(kind string, fn func()) {
+	t0 := time.Now()
+	fn()
+	l.r.Count("live.ms."+kind, int(time.Since(t0).Milliseconds()))
 }
 
 func (l *c10Live) abort(reason string) {
@@ -263,6 +376,11 @@ func (l *c10Live) appendOne() {
 		}
 	}()
 	if l.committable() {
+		wait := c10LiveOpTimeout
+		stuckExpected := l.hub.leaderTrimmedAboveFollower.Load()
+		if stuckExpected {
+			wait = 2 * time.Second
+		}
 		select {
 		case <-pend.done:
 			l.logf("append id=%d synconce=%v -> seq=%d err=%v", id, so, pend.res.MessageSeq, pend.err)
@@ -271,24 +389,45 @@ func (l *c10Live) appendOne() {
 			} else {
 				l.r.Count("live.append_acked", 1)
 			}
-		case <-time.After(c10LiveOpTimeout):
+		case <-time.After(wait):
 			l.pending = append(l.pending, pend)
-			l.abort("live: committable append did not return within the watchdog")
+			if stuckExpected {
+				// consequence of the trim already reported for this case: the
+				// follower cannot be repaired from the trimmed leader log.
+				l.r.Count("live.append_stuck_after_reported_leader_trim", 1)
+				l.logf("append id=%d not committed within 2s (follower cannot catch up after the reported leader trim)", id)
+			} else {
+				l.abort("live: committable append did not return within the watchdog")
+			}
 		}
 		l.shape.WriteString("A")
 		return
 	}
+	queuedBehind := l.w.mode == "quorum" && len(l.pending) > 0
 	l.pending = append(l.pending, pend)
-	ok := verifkit.Watchdog(c10LiveOpTimeout, func() {
-		for l.hub.leaderAppendLast.Load() <= before {
-			select {
-			case <-pend.done:
-				return
-			default:
-			}
-			time.Sleep(200 * time.Microsecond)
+	if queuedBehind {
+		// the durable quorum log serialises one channel: this proposal is not
+		// written anywhere before the in-flight one resolves.
+		l.logf("append id=%d synconce=%v queued behind an in-flight proposal", id, so)
+		l.r.Count("live.append_queued_behind_in_flight", 1)
+		l.shape.WriteString("Q")
+		return
+	}
+	ok := false
+	for deadline := time.Now().Add(c10LiveOpTimeout); time.Now().Before(deadline); time.Sleep(200 * time.Microsecond) {
+		if l.hub.leaderAppendLast.Load() > before {
+			ok = true
+			break
 		}
-	})
+		select {
+		case <-pend.done:
+			ok = true
+		default:
+		}
+		if ok {
+			break
+		}
+	}
 	l.logf("append id=%d synconce=%v left in flight (ISR held back), leader appended through %d", id, so, l.hub.leaderAppendLast.Load())
 	l.r.Count("live.append_in_flight", 1)
 	l.shape.WriteString("P")
@@ -298,7 +437,7 @@ func (l *c10Live) appendOne() {
 }
 
 func (l *c10Live) drainPending() {
-	if !l.committable() {
+	if !l.committable() || l.hub.leaderTrimmedAboveFollower.Load() {
 		return
 	}
 	keep := l.pending[:0]
@@ -510,7 +649,15 @@ func (l *c10Live) stepRead() {
 	n := 1 + l.rng.IntN(3)
 	reads := make([]channels.CommittedRead, n)
 	for i := range reads {
-		reads[i] = channels.CommittedRead{ChannelID: l.meta.ID, Request: c10GenReq(l.rng, floor, hint, stBefore.LEO)}
+		q := c10GenReq(l.rng, floor, hint, stBefore.LEO)
+		if l.rng.IntN(4) == 0 {
+			// a downward page that has to stop at the retention floor
+			q = store.ReadCommittedRequest{Reverse: true, Limit: int(stBefore.LEO) + 4, MaxBytes: 1 << 20}
+			q.FromSeq = []uint64{0, c10MaxU64, hint, stBefore.LEO}[l.rng.IntN(4)]
+			q.MaxSeq = []uint64{0, c10MaxU64}[l.rng.IntN(2)]
+			q.MinSeq = []uint64{0, 0, floor, floor + 1}[l.rng.IntN(4)]
+		}
+		reads[i] = channels.CommittedRead{ChannelID: l.meta.ID, Request: q}
 	}
 	var results []channels.CommittedReadResult
 	if l.r.Guard("live.ReadCommittedBatch", nil, func() {
@@ -549,6 +696,10 @@ func (l *c10Live) stepRead() {
 	}
 	l.mu.Unlock()
 	tail := leoByNode[leader] > proven
+	if l.hub.suffixShortened.Load() {
+		l.r.Count("live.note.read_not_judged_after_suffix_replacement", 1)
+		return
+	}
 	for i, res := range results {
 		q := reads[i].Request
 		l.r.Eval(1)
@@ -565,12 +716,17 @@ func (l *c10Live) stepRead() {
 		l.r.Count("live.read_messages", len(seqs))
 		w := func() map[string]any {
 			return map[string]any{"leader": leader, "isr": l.meta.ISR, "min_isr": l.meta.MinISR, "durable_leo_by_isr_node_after_read": leoByNode, "proven_committed": proven,
+				"leader_persisted_hw_before_read": stBefore.HW,
 				"meta_retention": metaRetention, "leader_adopted_retention_before_read": rsBefore.LocalRetentionThroughSeq,
 				"request": c10ReqJSON(q), "returned": seqs, "history": l.history(), "events": l.hub.tail(30)}
 		}
 		for _, m := range res.Read.Messages {
 			if m.MessageSeq > proven {
-				c10V(l.r, "live-read-above-proven-committed:"+dir, w())
+				kind := "persisted-hw>0"
+				if stBefore.HW == 0 && l.meta.MinISR > 1 {
+					kind = "committed=0"
+				}
+				c10V(l.r, "live-read-above-proven-committed:"+kind+":"+dir, w())
 				break
 			}
 			if m.MessageSeq <= floor {
@@ -584,7 +740,18 @@ func (l *c10Live) stepRead() {
 			l.mu.Lock()
 			rec, ok := l.msgs[m.MessageID]
 			l.mu.Unlock()
-			if !ok || rec.Payload != string(m.Payload) {
+			if !ok && m.SyncOnce {
+				// not appended by the harness and marked SyncOnce: the quorum
+				// log's current-term barrier record; at this layer it must
+				// carry the marker so that the sync reader can drop it.
+				l.r.Count("live.barrier_records_seen_marked", 1)
+				continue
+			}
+			if !ok {
+				c10V(l.r, "live-read-unknown-record-not-marked-synconce", w())
+				break
+			}
+			if rec.Payload != string(m.Payload) {
 				c10V(l.r, "live-read-phantom-message", w())
 				break
 			}
@@ -611,61 +778,68 @@ func (l *c10Live) stepRead() {
 	}
 }
 
+// settle gives unpaused followers a bounded chance to reach the leader's log
+// end (a driver convenience, never judged).
 func (l *c10Live) settle() {
 	target := l.leaderLEO()
-	verifkit.Watchdog(10*time.Second, func() {
-		for {
-			ok := true
-			for _, f := range l.followers() {
-				if l.paused[f] {
-					continue
-				}
-				st, _, err := l.hub.rawLoad(f)
-				if err != nil || st.LEO < target {
-					ok = false
-				}
+	limit := 2 * time.Second
+	if l.hub.leaderTrimmedAboveFollower.Load() {
+		limit = 200 * time.Millisecond
+	}
+	deadline := time.Now().Add(limit)
+	for time.Now().Before(deadline) {
+		ok := true
+		for _, f := range l.followers() {
+			if l.paused[f] {
+				continue
 			}
-			if ok {
-				return
+			st, _, err := l.hub.rawLoad(f)
+			if err != nil || st.LEO < target {
+				ok = false
 			}
-			time.Sleep(500 * time.Microsecond)
 		}
-	})
+		if ok {
+			return
+		}
+		time.Sleep(500 * time.Microsecond)
+	}
+	l.r.Count("live.settle_gave_up", 1)
 }
 
-func c10LiveCase(r *verifkit.Run, i int) {
+func c10LiveCase(r *verifkit.Run, i int, w *c10LiveWorld) {
 	rng := r.Rand(0x11fe, uint64(i))
-	l, err := c10NewLive(r, rng, i)
+	l, err := c10NewLive(r, rng, i, w)
 	if err != nil {
 		r.Inconclusive(fmt.Sprintf("live case %d: cluster construction: %v", i, err))
 		return
 	}
-	defer l.close()
-	r.BeginCase(i, fmt.Sprintf("leader=%d isr=%v minISR=%d", l.meta.Leader, l.meta.ISR, l.meta.MinISR))
-	l.shape.WriteString(fmt.Sprintf("L%d:I%d:Q%d:", l.meta.Leader, len(l.meta.ISR), l.meta.MinISR))
+	defer l.timed("close", l.close)
+	r.BeginCase(i, fmt.Sprintf("mode=%s leader=%d isr=%v minISR=%d", w.mode, l.meta.Leader, l.meta.ISR, l.meta.MinISR))
+	l.shape.WriteString(fmt.Sprintf("%s:L%d:I%d:Q%d:", w.mode, l.meta.Leader, len(l.meta.ISR), l.meta.MinISR))
+	r.Count("live.cases."+w.mode, 1)
 	if rng.IntN(4) == 0 {
 		l.stepPause() // a follower that never applies anything
 	}
 	for k := 2 + rng.IntN(4); k > 0 && !l.aborted; k-- {
-		l.appendOne()
+		l.timed("append_initial", l.appendOne)
 	}
 	steps := 16 + rng.IntN(14)
 	for s := 0; s < steps && !l.aborted; s++ {
 		switch x := rng.IntN(100); {
 		case x < 18:
-			l.appendOne()
+			l.timed("append", l.appendOne)
 		case x < 30:
-			l.stepPause()
+			l.timed("pause", l.stepPause)
 		case x < 42:
-			l.stepMeta()
+			l.timed("meta", l.stepMeta)
 		case x < 64:
-			l.stepRetention()
+			l.timed("retention", l.stepRetention)
 		case x < 70:
-			l.stepViews()
+			l.timed("views", l.stepViews)
 		case x < 75:
-			l.settle()
+			l.timed("settle", l.settle)
 		default:
-			l.stepRead()
+			l.timed("read", l.stepRead)
 		}
 	}
 	if !l.aborted {
@@ -676,8 +850,8 @@ func c10LiveCase(r *verifkit.Run, i int) {
 				l.paused[f] = false
 			}
 		}
-		l.drainPending()
-		l.settle()
+		l.timed("final_drain", l.drainPending)
+		l.timed("final_settle", l.settle)
 		l.stepRead()
 		l.stepViews()
 	}
@@ -693,6 +867,12 @@ func c10LiveCase(r *verifkit.Run, i int) {
 	if h.adoptBackward.Load() > 0 {
 		l.sawRegress = true
 	}
+	for k, v := range map[string]bool{"regress": l.sawRegress, "blocked": l.sawBlocked, "cross": l.sawCross, "tail": l.sawTail} {
+		if v {
+			r.Count("live.cases_with."+k, 1)
+		}
+	}
+	r.Count("live.cases", 1)
 	if l.sawRegress && l.sawBlocked && l.sawCross {
 		r.Nontrivial(l.shape.String())
 		if l.sawTail {
@@ -710,11 +890,34 @@ func TestVerifC10Live(t *testing.T) {
 	r.SetRule("Per case a fresh 3-node service.New cluster (memory stores behind the recording wrapper, random leader, ISR of 3 or 2, MinISR 1..3) runs 20-35 director steps: appends (22% SyncOnce; left in flight when paused followers make the ISR uncommittable, which builds an uncommitted tail), pause/resume of a follower's ApplyFollower (sometimes from the very start), ApplyMeta with RetentionThroughSeq forward/backward/repeated (some nodes miss an update), ApplyRetentionBoundary on leader/followers at the meta boundary, at earlier boundaries or at arbitrary sequences with random trim caps, RetentionView sweeps, and ReadCommittedBatch (1-3 requests around floor/HW/LEO/0/maxuint64, forward/reverse) through a channels.Service on the leader. Every read item is one evaluation; every physical trim is judged inside the store call. Non-trivial = case has a regressing boundary update, a physical trim blocked by min_isr_lag or checkpoint_lag, and a reverse read that crossed the retention floor. Distinct = topology + step/read shape string.")
 	r.Assume("One leader epoch per case: follower logs are never truncated, so durable LEOs only grow and a sample taken after an event is an upper bound of the value during it.")
 	r.Assume("The memory store double is never driven beyond the leader's log end (holes make later records unreadable in the double).")
-	n := r.N(40, 520)
+	n := r.N(60, 700)
+	var w *c10LiveWorld
+	defer func() {
+		if w != nil {
+			w.close()
+		}
+	}()
 	for i := 0; i < n; i++ {
 		if r.Skip(i) {
 			continue
 		}
-		c10LiveCase(r, i)
+		if w == nil || w.used >= 20 {
+			mode := "quorum"
+			if w != nil {
+				if w.mode == "quorum" {
+					mode = "pull"
+				}
+				w.close()
+			}
+			t0 := time.Now()
+			var err error
+			if w, err = c10NewLiveWorld(mode); err != nil {
+				r.Inconclusive("live: cluster construction: " + err.Error())
+				return
+			}
+			r.Count("live.ms.construct", int(time.Since(t0).Milliseconds()))
+			r.Count("live.clusters_built."+mode, 1)
+		}
+		c10LiveCase(r, i, w)
 	}
 }
